@@ -416,6 +416,7 @@ void AsyncSim::op_run() {
 	refresh_frames();
 	for (auto &r : recs) {
 		if (!r->outstanding || !r->h || r->att.empty() || r->att.back().failed_run) continue;
+		if (peek_handle_state(r->h) == KSI_ASYNC_STATE_RESPONSE_RECEIVED && !r->att.back().resp_run) r->att.back().resp_run = run_calls.size();
 		if (peek_handle_state(r->h) == KSI_ASYNC_STATE_ERROR) { r->att.back().failed_run = run_calls.size(); r->att.back().failed_ms = K.now_ms; KSI_AsyncHandle_getError(r->h, &r->att.back().failed_err); }
 	}
 	if (h) { if (ha) ha_on_returned(h, waiting); else on_returned(h, waiting); }
@@ -431,8 +432,8 @@ void AsyncSim::after_api(const char *what) {
 	size_t bound = 8 * eps.size() + 4;
 	if (K.noprogress_in_call > bound)
 		K.fail("C14", "spinning", what, "%llu simulated system calls without progress inside one %s call", (unsigned long long)K.noprogress_in_call, what);
-	if (K.syscalls_in_call > 200000)
-		K.fail("C14", "spinning", what, "%llu simulated system calls inside one %s call", (unsigned long long)K.syscalls_in_call, what);
+	if (K.syscalls_in_call > 2 * K.bytes_in_call + 1000)
+		K.fail("C14", "spinning", what, "%llu simulated system calls inside one %s call for %llu bytes moved", (unsigned long long)K.syscalls_in_call, what, (unsigned long long)K.bytes_in_call);
 	monitor_counts(what);
 }
 
@@ -782,7 +783,7 @@ void AsyncSim::check_response(HRec &r, Attempt &a) {
 	uint64_t hid = 0;
 	KSI_AsyncHandle_getRequestId(r.h, &hid);
 	if (hid != a.id) K.fail("C13", "request-id-changed", "response", "handle #%d id 0x%llx at return, 0x%llx when accepted", r.idx, (unsigned long long)hid, (unsigned long long)a.id);
-	std::vector<const Frame *> good, prem_same_run;
+	std::vector<const Frame *> good, prem_same_run, prem_all;
 	bool premature = false, premature_same_run = false, unauth = false, anyid = false;
 	for (auto &f : frames) {
 		if (!f.info.has_id || f.info.id != a.id || f.arrive_seq == 0 || f.arrive_seq > K.seq) continue;
@@ -790,6 +791,7 @@ void AsyncSim::check_response(HRec &r, Attempt &a) {
 		if (!f.clean_resp) { unauth = true; continue; }
 		if (a.sent_seq == 0 || f.arrive_seq <= a.sent_seq) {
 			premature = true;
+			prem_all.push_back(&f);
 			// the specific shape: the reply was taken from the socket in the very run call that afterwards completed the send
 			uint64_t rb = a.sent_seq ? run_begin_containing(a.sent_seq) : 0;
 			if (rb && f.read_seq > rb && f.read_seq < a.sent_seq) { premature_same_run = true; prem_same_run.push_back(&f); }
@@ -797,8 +799,12 @@ void AsyncSim::check_response(HRec &r, Attempt &a) {
 		}
 		good.push_back(&f);
 	}
+	if (a.resp_run && a.resp_run <= run_calls.size() && (a.sent_seq == 0 || a.sent_seq > run_calls[a.resp_run - 1].second)) {
+		K.fail("C13", "response-matched-before-request-was-sent", "run", "handle #%d was given a response in run call %zu, before its request had been completely sent", r.idx, a.resp_run);
+		return;
+	}
 	if (good.empty()) {
-		const char *key = premature_same_run ? "reply-read-in-the-run-call-that-then-sent-the-request" : premature ? "reply-consumed-before-request-was-sent" : unauth ? "only-unauthentic-or-error-status-reply" : anyid ? "reply-not-eligible" : "no-reply-with-this-id";
+		const char *key = premature ? "reply-arrived-before-the-request-was-sent-but-was-matched-after" : unauth ? "only-unauthentic-or-error-status-reply" : anyid ? "reply-not-eligible" : "no-reply-with-this-id";
 		K.fail("C13", "response-without-valid-reply", key, "handle #%d (id 0x%llx, sent_seq %llu) completed with a response, but no authentic status-0 reply with its id arrived after it was sent",
 		       r.idx, (unsigned long long)a.id, (unsigned long long)a.sent_seq);
 		return;
@@ -840,8 +846,8 @@ void AsyncSim::check_response(HRec &r, Attempt &a) {
 			};
 			bool same = false;
 			for (auto *g : good) if (matches(g)) same = true;
-			if (parsed && !same) for (auto *g : prem_same_run) if (matches(g)) {
-				K.fail("C13", "response-without-valid-reply", "reply-read-in-the-run-call-that-then-sent-the-request", "handle #%d: the response it carries is a reply that arrived before the request was sent (an eligible reply arrived later and was ignored)", r.idx);
+			if (parsed && !same) for (auto *g : prem_all) if (matches(g)) {
+				K.fail("C13", "response-without-valid-reply", "reply-arrived-before-the-request-was-sent-but-was-matched-after", "handle #%d: the response it carries is a reply that arrived before the request was sent (an eligible reply arrived later and was ignored)", r.idx);
 				same = true;
 			}
 			if (parsed && !same) K.fail("C13", "response-content-mismatch", "signature", "handle #%d: signature content is not that of any eligible reply", r.idx);
@@ -1047,8 +1053,8 @@ void AsyncSim::check_outgoing(bool final) {
 		} else {
 			for (auto &xp : C.xfers) if (xp->ep == e.net_ep && xp->sent_seq) check_pdu(xp->req_body, "x", xp->idx, false);
 		}
-		// submission order (plain service): first transmissions appear in acceptance order
-		if (!ha) {
+		// submission order (plain TCP service): first transmissions appear in acceptance order
+		if (!ha && !e.http) {
 			std::vector<uint64_t> accepted;
 			std::vector<std::pair<uint64_t, uint64_t>> acc;
 			for (auto &r : recs) for (auto &a : r->att) acc.push_back({a.accepted_seq, a.id});
